@@ -30,6 +30,9 @@ type world struct {
 	lastRes  M                       // result of the last op (op-specific observations)
 	markKeys []interface{}
 	first    map[string]string // C14: first output per key
+	history  []M               // ops executed so far (for the reference rebuild of C10)
+	version  int               // bumped by every op that is not a render (C14 key)
+	facets   map[string]bool
 }
 
 func newWorld() *world {
@@ -145,6 +148,7 @@ type driverPanic struct{ v interface{} }
 
 func runScenario(out *bufio.Writer, id string, ops []M, facets map[string]bool, every bool, sub *substitution) {
 	w := newWorld()
+	w.facets = facets
 	writeLine(out, M{"op": M{"op": "reset", "id": id}})
 	for i, op := range ops {
 		if sub != nil {
@@ -165,7 +169,11 @@ func runScenario(out *bufio.Writer, id string, ops []M, facets map[string]bool, 
 			w.lastRes = nil
 			w.cblog = nil
 			w.cbraw = nil
+			if o := opStr(op, "op"); o != "render" && o != "renderall" && o != "faultsweep" {
+				w.version++
+			}
 			w.exec(op)
+			w.history = append(w.history, op)
 		}()
 		w.resolveCbLog()
 		if len(w.cbs) > 0 {
